@@ -580,6 +580,25 @@ class Ctx:
                 for a in other:
                     if a[0] == "bit" and a[2] == 0:
                         forced0.add(a[1])
+                # a bit-slice that a guard compares with zero as a whole (`(x >> 24) != 0` rejected): all its bits
+                SEL_RE = r"^(u8|le16|le32|le64|le128|be16|be32|be64|be128)@(L[-+]\d+|\d+|L)(?:\[(\d+)\.\.(\d+)\])?$"
+                for f_ in ge:
+                    if len(f_.m) == 1:
+                        (mono_, c_), = f_.m.items()
+                        if c_ < 0 and len(mono_) == 1:
+                            mz = re.match(SEL_RE, mono_[0])
+                            if mz:
+                                kz, pz = mz.group(1), mz.group(2)
+                                nbz = 1 if kz == "u8" else int(kz[2:]) // 8
+                                loz = int(mz.group(3)) if mz.group(3) else 0
+                                hiz = int(mz.group(4)) if mz.group(4) else nbz * 8
+                                mp2 = re.match(r"^(L)?([-+]?\d+)?$", pz)
+                                bL, bs = bool(mp2.group(1)), int(mp2.group(2) or 0)
+                                for j in range(loz, hiz):
+                                    bo = (j // 8) if (kz.startswith("le") or kz == "u8") else (nbz - 1 - j // 8)
+                                    kp = bs + bo
+                                    key_ = (("L%+d" % kp) if kp else "L") if bL else str(kp)
+                                    forced0.add("%s.%d" % (key_, j % 8))
                 kind, pos = m.group(1), m.group(2)
                 nbytes = 1 if kind == "u8" else int(kind[2:]) // 8
                 lo_b = int(m.group(3)) if m.group(3) else 0
